@@ -271,6 +271,10 @@ pub fn diagnose_store(
     match after.get(&k) {
         None if !newcomer_may_go => {
             let mut owners = vec!["C03"];
+            if p.limit.is_some() {
+                // "the cache holds min(N, number of distinct keys stored) entries"
+                owners.push("C04");
+            }
             owners.extend_from_slice(ctx);
             return Clause::new(
                 "not_stored",
@@ -304,6 +308,10 @@ pub fn diagnose_store(
         }
         if owners.is_empty() {
             owners.push("C03");
+        }
+        if m.gone.values().any(|g| *g == Gone::Expired) {
+            // an expired entry that was purged must no longer occupy capacity
+            owners.push("C06");
         }
         return Clause::new(
             "needless_eviction",
